@@ -39,6 +39,10 @@ JudgePP(e) ==
 
 JudgeV(e) ==
   /\ Report("VERDICT", "C09_Versions", e, (e.note = "" /\ e.noOverlap) => ~e.accepted)
+  \* ... nor one in which some alive node speaks a version another alive node does not understand
+  /\ Report("VERDICT", "C09_VersionsSpoken", e, (e.note = "" /\ e.unintelligible) => ~e.accepted)
+  \* the answer does not depend on the order in which the node happens to hold its members
+  /\ Report("VERDICT", "C09_VersionsOrder", e, e.note = "" => e.accepted = e.acceptedSwapped)
   /\ Report("DRIFT", "verifyProtocol", e, e.note # "" \/ e.accepted = e.modelAccepted)
   /\ PrintT(<<"STAT2", IF e.noOverlap THEN "C09_versions_nooverlap" ELSE "C09_versions_overlap", 1, 1>>)
 
